@@ -1,5 +1,6 @@
 import TvCore.Props.WorldLinks
 import TvCore.Props.C08
+import TvCore.Props.C08Mixed
 #print axioms TV.C08.hold_establishes
 #print axioms TV.C08.process_noop
 #print axioms TV.C08.tick_held
@@ -16,3 +17,7 @@ import TvCore.Props.C08
 #print axioms TV.C08.perm_drain
 #print axioms TV.WorldLinks.linkEnqueue_other
 #print axioms TV.WorldLinks.onLink_other
+#print axioms TV.C08.release_none_held
+#print axioms TV.C08.release_ids
+#print axioms TV.C08.releaseOne_status
+#print axioms TV.C08.deliver_then_release_none_held
